@@ -6,9 +6,10 @@
   merely safe: filter_pair keeps a pair iff both strings are non-empty and their token overlap satisfies comp_op against
   overlap_size, and filter_tables lists exactly those pairs, with _sim_score equal to the overlap when requested."
 
-  Model functions: `filterCandset a fp cpu` (`Filter.filter_candset`, parameterised by the filter's `filter_pair` function
-  `fp`, so the theorem covers Size/Prefix/Position/Suffix (`filterPair k f tok`) and Overlap (`overlapFilterPair f tok`)
-  alike) of `SSJ/Model/Matcher.lean`; `overlapFilterPair f tok` (`OverlapFilter.filter_pair`) of `SSJ/Model/Filters.lean`;
+  Model functions: `filterCandset a fp cpu` (`Filter.filter_candset`, parameterised by the filter's `filter_pair` as a
+  Python call `fp : Cell → Cell → Except PyErr Bool`, so the theorem covers Size/Prefix/Position/Suffix
+  (`filterPairPy k f tok`: the pure `filterPair k f tok`, or TypeError when both values are present and one is not a
+  `str`) and Overlap (`overlapFilterPairPy f tok`) alike) of `SSJ/Model/Matcher.lean`; `overlapFilterPair f tok` (`OverlapFilter.filter_pair`) of `SSJ/Model/Filters.lean`;
   `overlapFilterTables f a oss tok cpu` (`OverlapFilter.filter_tables`) of `SSJ/Model/Frame.lean`.
 
   Hypotheses / scope.
@@ -16,9 +17,14 @@
     join columns of string dtype, keys unique and present: `hv1 … hv10`); every candidate row's two keys occur in the
     tables (`hl`, `hr`: `lval cr` / `rval cr` are then the join values of the referenced rows — without this pandas raises
     KeyError); the candset has fewer than 2^40 rows (so that `split_table` partitions it, for every `n_jobs` and CPU
-    count).  ANY `filter_pair` function `fp`, any `n_jobs`.  The index-label clause assumes a well-formed candset (one
+    count).  ANY `filter_pair` call `fp` that does not raise on the referenced value pairs (`hfp`: there it answers the
+    total function `fpb`; for the five filters this holds when the two filter columns hold only strings and missing
+    values — `candset_rowwise_filter`, `candset_rowwise_overlap`; otherwise the first referenced non-string pair raises
+    TypeError, `C15.filter_candset_nonstring_raises`), any `n_jobs`.  The index-label clause assumes a well-formed candset (one
     index label per row).
   * `overlap_pair_exact`: no hypotheses (any filter object, tokenizer, cells).
+  * `overlap_tables_exact` (which concludes that the call returns): `BodyOK` — string filter columns, no `_id` in the
+    output header (SSJ/Props/Common.lean; else TypeError / ValueError, `C15_body`).
   * `overlap_tables_*`: table validations pass (`validateTablesAttrs`, `validateOutAndKeys`), tokenizer output
     duplicate-free (the tokenizer's current mode is used as is), right table < 2^40 rows; ANY filter object (operator,
     overlap size, allow_missing), output attributes, `out_sim_score`, `n_jobs`.
@@ -30,6 +36,7 @@
   NOT covered: the safety of the four non-exact filters (C03/C04); exceptions of invalid calls (C15).
 -/
 import SSJ.Proofs.EntryExact
+import SSJ.Proofs.BodyOK
 
 namespace SSJ.Props.C06
 open SSJ SSJ.Props
@@ -37,7 +44,8 @@ open SSJ SSJ.Props
 /-- (C06) for ANY filter (given by its `filter_pair` function `fp`) and any `n_jobs`, `filter_candset` returns the candset
     restricted to the rows whose referenced value pair `fp` does not drop: same columns and dtypes, same row order,
     and every kept row keeps its index label. -/
-theorem candset_rowwise (a : CandsetArgs) (fp : Cell → Cell → Bool) (cpu : Int) (c l r : Frame)
+theorem candset_rowwise (a : CandsetArgs) (fp : Cell → Cell → Except PyErr Bool) (fpb : Cell → Cell → Bool)
+    (cpu : Int) (c l r : Frame)
     (hc : a.candset = some c) (hlt : a.ltable = some l) (hrt : a.rtable = some r)
     (hv1 : validateAttr a.candLKey c = .ok ()) (hv2 : validateAttr a.candRKey c = .ok ())
     (hv3 : validateAttr a.lKey l = .ok ()) (hv4 : validateAttr a.rKey r = .ok ())
@@ -49,13 +57,69 @@ theorem candset_rowwise (a : CandsetArgs) (fp : Cell → Cell → Bool) (cpu : I
                                         valOf l a.lAttr ls = lval cr)
     (hr : ∀ cr ∈ c.rows, ∃ rs ∈ r.rows, keyOf r a.rKey rs = cr.cell (c.colIdx a.candRKey) ∧
                                         valOf r a.rAttr rs = rval cr)
+    (hfp : ∀ cr ∈ c.rows, fp (lval cr) (rval cr) = .ok (fpb (lval cr) (rval cr)))
     (hlen : c.rows.length < 2 ^ 40) :
     ∃ fr, filterCandset a fp cpu = .ok fr ∧ fr.columns = c.columns ∧ fr.dtypes = c.dtypes ∧
-      fr.rows = c.rows.filter (fun cr => !fp (lval cr) (rval cr)) ∧
+      fr.rows = c.rows.filter (fun cr => !fpb (lval cr) (rval cr)) ∧
       (c.index.length = c.rows.length →
         fr.index.length = fr.rows.length ∧
-        fr.rows.zip fr.index = (c.rows.zip c.index).filter (fun p => !fp (lval p.1) (rval p.1))) :=
-  filterCandset_full a fp cpu c l r hc hlt hrt hv1 hv2 hv3 hv4 hv5 hv6 hv7 hv8 hv9 hv10 lval rval hl hr hlen
+        fr.rows.zip fr.index = (c.rows.zip c.index).filter (fun p => !fpb (lval p.1) (rval p.1))) :=
+  filterCandset_full a fp fpb cpu c l r hc hlt hrt hv1 hv2 hv3 hv4 hv5 hv6 hv7 hv8 hv9 hv10 lval rval hl hr hfp hlen
+
+/-- `candset_rowwise` for Size/Prefix/Position/SuffixFilter: when the two filter columns hold only strings and missing
+    values, `filter_pair` raises on no referenced pair and the kept rows are those `filterPair` does not drop -/
+theorem candset_rowwise_filter (k : FilterKind) (f : FilterObj) (tok : String → List Tok)
+    (a : CandsetArgs) (cpu : Int) (c l r : Frame)
+    (hc : a.candset = some c) (hlt : a.ltable = some l) (hrt : a.rtable = some r)
+    (hv1 : validateAttr a.candLKey c = .ok ()) (hv2 : validateAttr a.candRKey c = .ok ())
+    (hv3 : validateAttr a.lKey l = .ok ()) (hv4 : validateAttr a.rKey r = .ok ())
+    (hv5 : validateAttr a.lAttr l = .ok ()) (hv6 : validateAttr a.rAttr r = .ok ())
+    (hv7 : validateAttrType a.lAttr l = .ok ()) (hv8 : validateAttrType a.rAttr r = .ok ())
+    (hv9 : validateKeyAttr a.lKey l = .ok ()) (hv10 : validateKeyAttr a.rKey r = .ok ())
+    (lval rval : Row → Cell)
+    (hl : ∀ cr ∈ c.rows, ∃ ls ∈ l.rows, keyOf l a.lKey ls = cr.cell (c.colIdx a.candLKey) ∧
+                                        valOf l a.lAttr ls = lval cr)
+    (hr : ∀ cr ∈ c.rows, ∃ rs ∈ r.rows, keyOf r a.rKey rs = cr.cell (c.colIdx a.candRKey) ∧
+                                        valOf r a.rAttr rs = rval cr)
+    (hsl : StrColumn l a.lAttr) (hsr : StrColumn r a.rAttr)
+    (hlen : c.rows.length < 2 ^ 40) :
+    ∃ fr, filterCandset a (filterPairPy k f tok) cpu = .ok fr ∧ fr.columns = c.columns ∧ fr.dtypes = c.dtypes ∧
+      fr.rows = c.rows.filter (fun cr => !filterPair k f tok (lval cr) (rval cr)) :=
+  let ⟨fr, h1, h2, h3, h4, _⟩ := candset_rowwise a _ (filterPair k f tok) cpu c l r hc hlt hrt hv1 hv2 hv3 hv4 hv5 hv6 hv7
+    hv8 hv9 hv10 lval rval hl hr
+    (fun cr hcr => by
+      obtain ⟨ls, hls, -, e1⟩ := hl cr hcr
+      obtain ⟨rs, hrs, -, e2⟩ := hr cr hcr
+      rw [← e1, ← e2]
+      exact filterPairPy_columns k f tok l r a.lAttr a.rAttr hsl hsr ls hls rs hrs) hlen
+  ⟨fr, h1, h2, h3, h4⟩
+
+/-- `candset_rowwise` for the OverlapFilter -/
+theorem candset_rowwise_overlap (f : OverlapFilterObj) (tok : String → List Tok)
+    (a : CandsetArgs) (cpu : Int) (c l r : Frame)
+    (hc : a.candset = some c) (hlt : a.ltable = some l) (hrt : a.rtable = some r)
+    (hv1 : validateAttr a.candLKey c = .ok ()) (hv2 : validateAttr a.candRKey c = .ok ())
+    (hv3 : validateAttr a.lKey l = .ok ()) (hv4 : validateAttr a.rKey r = .ok ())
+    (hv5 : validateAttr a.lAttr l = .ok ()) (hv6 : validateAttr a.rAttr r = .ok ())
+    (hv7 : validateAttrType a.lAttr l = .ok ()) (hv8 : validateAttrType a.rAttr r = .ok ())
+    (hv9 : validateKeyAttr a.lKey l = .ok ()) (hv10 : validateKeyAttr a.rKey r = .ok ())
+    (lval rval : Row → Cell)
+    (hl : ∀ cr ∈ c.rows, ∃ ls ∈ l.rows, keyOf l a.lKey ls = cr.cell (c.colIdx a.candLKey) ∧
+                                        valOf l a.lAttr ls = lval cr)
+    (hr : ∀ cr ∈ c.rows, ∃ rs ∈ r.rows, keyOf r a.rKey rs = cr.cell (c.colIdx a.candRKey) ∧
+                                        valOf r a.rAttr rs = rval cr)
+    (hsl : StrColumn l a.lAttr) (hsr : StrColumn r a.rAttr)
+    (hlen : c.rows.length < 2 ^ 40) :
+    ∃ fr, filterCandset a (overlapFilterPairPy f tok) cpu = .ok fr ∧ fr.columns = c.columns ∧ fr.dtypes = c.dtypes ∧
+      fr.rows = c.rows.filter (fun cr => !overlapFilterPair f tok (lval cr) (rval cr)) :=
+  let ⟨fr, h1, h2, h3, h4, _⟩ := candset_rowwise a _ (overlapFilterPair f tok) cpu c l r hc hlt hrt hv1 hv2 hv3 hv4 hv5 hv6
+    hv7 hv8 hv9 hv10 lval rval hl hr
+    (fun cr hcr => by
+      obtain ⟨ls, hls, -, e1⟩ := hl cr hcr
+      obtain ⟨rs, hrs, -, e2⟩ := hr cr hcr
+      rw [← e1, ← e2]
+      exact overlapFilterPairPy_columns f tok l r a.lAttr a.rAttr hsl hsr ls hls rs hrs) hlen
+  ⟨fr, h1, h2, h3, h4⟩
 
 /-- (C06) `OverlapFilter.filter_pair` is exact: on two present values it keeps the pair (returns False) iff both strings
     are non-empty and the number of common tokens satisfies `comp_op` against `overlap_size`; if a value is missing it
@@ -73,7 +137,8 @@ theorem overlap_pair_exact (f : OverlapFilterObj) (tok : String → List Tok) (l
     satisfies `comp_op` against `overlap_size`; with `out_sim_score` the listed row's `_sim_score` is that number. -/
 theorem overlap_tables_exact (f : OverlapFilterObj) (a : TableArgs) (oss : Bool) (tok : String → List Tok) (cpu : Int) (l r : Frame)
     (hv : validateTablesAttrs a = .ok (l, r)) (hk : validateOutAndKeys a l r = .ok ())
-    (hnd : ∀ s, (tok s).Nodup) (hlen : r.rows.length < 2 ^ 40) :
+    (hnd : ∀ s, (tok s).Nodup) (hlen : r.rows.length < 2 ^ 40)
+    (hb : BodyOK a l r oss) :
     ∃ fr, overlapFilterTables f a oss tok cpu = .ok fr ∧
       (fr.rows.map rowKeys).Nodup ∧
       ∀ ls ∈ l.rows, ∀ rs ∈ r.rows, Present l a.lAttr ls → Present r a.rAttr rs →
@@ -83,7 +148,7 @@ theorem overlap_tables_exact (f : OverlapFilterObj) (a : TableArgs) (oss : Bool)
             (1 ≤ interCount A B ∧ compFn f.compOp (.int (interCount A B)) f.overlapSize = true)) ∧
         (oss = true → ∀ row ∈ fr.rows, rowKeys row = (keyOf l a.lKey ls, keyOf r a.rKey rs) →
             rowScore row = .int (interCount A B)) := by
-  obtain ⟨fr, hfr, hd⟩ := EX.overlapFilterTables_described f a oss tok cpu l r hnd hv hk hlen
+  obtain ⟨fr, hfr, hd⟩ := EX.overlapFilterTables_described f a oss tok cpu l r hnd hv hk hlen hb
   obtain ⟨hkl, hkr⟩ := validateOutAndKeys_keys _ l r hk
   refine ⟨fr, hfr, hd.once, ?_⟩
   intro ls hls rs hrs hpl hpr A B
@@ -161,16 +226,16 @@ def F : OverlapFilterObj := { overlapSize := .int 1, compOp := ">=" }
 def TA : TableArgs := { ltable := some L, rtable := some R, lKey := "id", rKey := "rid", lAttr := "s", rAttr := "u" }
 
 /-- the candset filtered by the OverlapFilter: the empty-empty pair (2, 8) goes, labels 10 and 12 stay -/
-example : filterCandset CA (overlapFilterPair F tk) 1 =
+example : filterCandset CA (overlapFilterPairPy F tk) 1 =
     .ok { C with index := [.int 10, .int 12], rows := [[.int 0, .int 1, .int 7], [.int 2, .int 1, .int 9]] } := by decide
 
 /-- the hypotheses of `candset_rowwise` hold for this call (with `lval`/`rval` looking the values up) -/
-example : ∃ fr, filterCandset CA (overlapFilterPair F tk) 1 = .ok fr ∧ fr.columns = C.columns :=
+example : ∃ fr, filterCandset CA (overlapFilterPairPy F tk) 1 = .ok fr ∧ fr.columns = C.columns :=
   let lval : Row → Cell := fun cr => if cr.cell 1 = .int 1 then .str "a b" else .str ""
   let rval : Row → Cell := fun cr => if cr.cell 2 = .int 7 then .str "b c" else if cr.cell 2 = .int 8 then .str "" else .str "b"
-  let ⟨fr, h, hcol, _⟩ := candset_rowwise CA (overlapFilterPair F tk) 1 C L R rfl rfl rfl (by decide) (by decide) (by decide)
+  let ⟨fr, h, hcol, _⟩ := candset_rowwise_overlap F tk CA 1 C L R rfl rfl rfl (by decide) (by decide) (by decide)
     (by decide) (by decide) (by decide) (by decide) (by decide) (by decide) (by decide) lval rval (by decide) (by decide)
-    (by decide)
+    (by decide) (by decide) (by decide)
   ⟨fr, h, hcol⟩
 
 example : validateTablesAttrs TA = .ok (L, R) := by decide
